@@ -812,4 +812,114 @@ theorem timeInterval_fields (im im' : Img) (sl : PySlice) (h : im.timeInterval s
   · simp [throw, throwThe, MonadExceptOf.throw] at h
   · injection h with h; subst h; exact ⟨rfl, rfl, rfl, rfl, rfl⟩
 
+/-! ### point ROIs: physical box = voxel box, clipping -/
+theorem coordinateB_ok (cs : CS) (am : AxisMap) (ham : axisMap cs.dim = .ok am) (ws : List (List Rat)) :
+    cs.coordinateB ws = .ok (ws.map (coordWith am cs)) := by
+  induction ws with
+  | nil => rfl
+  | cons w ws ih =>
+    simp only [CS.coordinateB] at ih ⊢
+    rw [List.mapM_cons, ih]
+    simp only [CS.coordinate, ham, Except.map]; rfl
+
+theorem voxelB_ok (cs : CS) (am : AxisMap) (ham : axisMap cs.dim = .ok am) (xs : List (List Rat)) :
+    cs.voxelB xs = .ok (xs.map (voxelWith am cs)) := by
+  induction xs with
+  | nil => rfl
+  | cons x xs ih =>
+    simp only [CS.voxelB] at ih ⊢
+    rw [List.mapM_cons, ih]
+    simp only [CS.voxel, ham, Except.map]; rfl
+
+theorem axisMap_exists (d : Dim) : ∃ am, axisMap d = .ok am ∧ am.wf d = true := by
+  cases d
+  · exact ⟨[(0, false)], by decide, by decide⟩
+  · exact ⟨[(1, false), (0, true)], by decide, by decide⟩
+  · exact ⟨[(1, false), (2, true), (0, true)], by decide, by decide⟩
+
+/-- a physical box whose corner points are the coordinates of the (fractional) voxel positions `ws`
+selects exactly what the VoxelArray of the floored positions selects -/
+theorem physical_box_floor (im : Img) (hcs : im.cs.ok) (ws : List (List Rat))
+    (hw : ∀ w ∈ ws, w.length = im.cs.dim.toNat) :
+    ∃ pts, im.cs.coordinateB ws = .ok pts ∧ im.subCoords pts = im.subVoxels (ws.map (·.map Rat.floor)) := by
+  obtain ⟨am, hd, hwf⟩ := axisMap_exists im.cs.dim
+  refine ⟨_, coordinateB_ok im.cs am hd ws, ?_⟩
+  unfold Img.subCoords Img.subVoxels
+  rw [voxelB_ok im.cs am hd]
+  simp only [bind, Except.bind]
+  have : (ws.map (coordWith am im.cs)).map (voxelWith am im.cs) = ws.map (·.map Rat.floor) := by
+    rw [List.map_map]
+    apply List.map_congr_left
+    intro w hwm
+    exact voxel_coord_floor_with im.cs hcs am hwf w (hw w hwm)
+  rw [this]
+
+/-- the normalised voxel range a point ROI selects on an axis of `N` voxels when the points' indices span `[lo, hi]` -/
+def boxRange (N : Nat) (lo hi : Int) : Nat × Nat := (min (max 0 lo).toNat N, (max 0 (min hi (N : Int))).toNat)
+
+theorem sliceIdx_box (N : Nat) (lo hi : Int) :
+    sliceIdx N (some (max 0 lo), some (max 0 (min hi (N : Int)))) = boxRange N lo hi := by
+  unfold sliceIdx boxRange
+  simp only [Option.map_some, Option.getD_some]
+  have h1 : ¬ (max 0 lo < 0) := by omega
+  have h2 : ¬ (max 0 (min hi (N : Int)) < 0) := by omega
+  simp only [h1, h2, if_false]
+  congr 1
+  omega
+
+/-- CLIPPING: voxel index `j` is selected iff it is a voxel of the image and lies in `[lo, hi)` -/
+theorem clip_selects (N : Nat) (lo hi : Int) (j : Nat) :
+    ((boxRange N lo hi).1 ≤ j ∧ j < (boxRange N lo hi).2) ↔ (lo ≤ (j : Int) ∧ (j : Int) < hi ∧ j < N) := by
+  unfold boxRange; simp only; omega
+
+/-- a ROI entirely outside the image on an axis (all indices ≤ 0 from below, or ≥ N) selects nothing there -/
+theorem roi_outside_selects_nothing (N : Nat) (lo hi : Int) (h : hi ≤ 0 ∨ (N : Int) ≤ lo) :
+    (boxRange N lo hi).2 ≤ (boxRange N lo hi).1 ∨ (boxRange N lo hi).2 = 0 := by
+  unfold boxRange; simp only; omega
+theorem mapM_ok_get {α β} (f : α → Except Err β) (l : List α) : ∀ (r : List β), l.mapM f = .ok r →
+    r.length = l.length ∧ ∀ (i : Nat) (a : α), l[i]? = some a → ∃ b, f a = .ok b ∧ r[i]? = some b := by
+  induction l with
+  | nil =>
+    intro r h
+    simp only [List.mapM_nil, pure, Except.pure] at h
+    injection h with h; subst h; simp
+  | cons x l ih =>
+    intro r h
+    rw [List.mapM_cons] at h
+    simp only [bind, Except.bind, pure, Except.pure] at h
+    split at h
+    · exact absurd h (by simp)
+    · next b hb =>
+      split at h
+      · exact absurd h (by simp)
+      · next bs hbs =>
+        injection h with h; subst h
+        obtain ⟨hl, hg⟩ := ih bs hbs
+        refine ⟨by simp [hl], ?_⟩
+        intro i a hi
+        cases i with
+        | zero => simp at hi; subst hi; exact ⟨b, hb, by simp⟩
+        | succ n => simp at hi ⊢; exact hg n a hi
+
+theorem boxSlices_ranges (shape : List Nat) (pts : List (List Int)) (sls : List PySlice)
+    (h : boxSlices shape pts = .ok sls) :
+    sls.length = shape.length ∧ ∀ (d N : Nat), shape[d]? = some N → ∃ lo hi, colMin pts d = some lo ∧ colMax pts d = some hi ∧
+      (List.zipWith sliceIdx shape sls)[d]? = some (boxRange N lo hi) := by
+  unfold boxSlices at h
+  obtain ⟨hl, hg⟩ := mapM_ok_get _ _ _ h
+  refine ⟨by simpa using hl, ?_⟩
+  intro d N hd
+  have hz : shape.zipIdx[d]? = some (N, d) := by
+    rw [List.getElem?_zipIdx, hd]; simp
+  obtain ⟨b, hb, hr⟩ := hg d (N, d) hz
+  simp only at hb
+  split at hb
+  · next lo hi hlo hhi =>
+    injection hb with hb; subst hb
+    refine ⟨lo, hi, hlo, hhi, ?_⟩
+    rw [List.getElem?_zipWith, hd, hr]
+    simp only [Option.map_some, Option.bind_some, Option.some.injEq] 
+    exact sliceIdx_box N lo hi
+  · exact absurd hb (by simp)
+
 end Darsia.Im
